@@ -4,7 +4,7 @@
   (`Spec.activePower` = Σ power of the sectors whose status is `active`: live, proven, not faulty)
   and the power-actor model `BA.Power` (claims, totals, consensus-minimum rule).
 -/
-import BA.Lemmas.Sector.FullStep
+import BA.Lemmas.Sector.FullStep2
 import BA.Lemmas.Power
 
 namespace BA.Sector
@@ -49,17 +49,17 @@ theorem delta_telescopes (env : Env) (ops : List Op) (p : Partition) :
 /-- **delta_telescopes_recomputed_partial.** From the empty partition, for the operations of
     `memo_eq_recompute_partial` (add_sectors, record_faults, declare_faults_recovered,
     recover_faults, activate_unproven, record_missed_post, record_skipped_faults,
-    pop_expired_sectors, pop_early_terminations), the sum of all forwarded deltas equals the power
+    pop_expired_sectors, terminate_sectors, reschedule_expirations, pop_early_terminations), the
+    sum of all forwarded deltas equals the power
     RECOMPUTED from the individual sectors: Σ (raw, qa) over the sectors that are live (neither
     terminated nor expired), proven (not in `unproven`), and neither faulty nor recovering.
-    PARTIAL: for terminate_sectors / reschedule_expirations / replace_sectors only the memo-level
-    statement `delta_telescopes` is proved. -/
+    PARTIAL: for replace_sectors only the memo-level statement `delta_telescopes` is proved. -/
 theorem delta_telescopes_recomputed_partial (env : Env) (ops : List Op) (hw : TableWF env.tbl)
-    (hops : ∀ op ∈ ops, OpWF op ∧ OpWF2 env.tbl op ∧ TierB op) :
+    (hops : ∀ op ∈ ops, OpWF op ∧ OpWF2 env.tbl op ∧ TierC op) :
     sumDeltas env Partition.new ops = Spec.activePower env.tbl (run env Partition.new ops).abs := by
   have h1 := delta_telescopes env ops Partition.new
   have inv : ∀ (ops : List Op) (p : Partition), FullInv env.tbl p →
-      (∀ op ∈ ops, OpWF op ∧ OpWF2 env.tbl op ∧ TierB op) → FullInv env.tbl (run env p ops) := by
+      (∀ op ∈ ops, OpWF op ∧ OpWF2 env.tbl op ∧ TierC op) → FullInv env.tbl (run env p ops) := by
     intro ops
     induction ops with
     | nil => intro p h _; exact h
@@ -71,7 +71,7 @@ theorem delta_telescopes_recomputed_partial (env : Env) (ops : List Op) (hw : Ta
       unfold step
       cases hs : stepE env p op with
       | error e => exact h
-      | ok r => obtain ⟨p', ret⟩ := r; exact fullInv_stepE hw h a b c hs
+      | ok r => obtain ⟨p', ret⟩ := r; exact fullInv_stepE2 hw h a b c hs
   have hf := inv ops Partition.new (fullInv_new _) hops
   have h2 := (memo_eq_spec hf.sets hf.memo).2.2.2.2
   rw [← h2, h1]
